@@ -4,7 +4,7 @@ import LitexModel.Bits
   (litex/soc/interconnect/csr.py: CSR, CSRStatus.do_finalize, CSRStorage.do_finalize, CSRField,
    CSRFieldAggregate, GenericBank).
 
-  Stable names (imported read-only by C14/C15): `Kind`, `Ordering`, `FieldSpec`, `RegSpec`, `nwords`,
+  Stable names (imported read-only by C14/C15): `Kind`, `WordOrdering`, `FieldSpec`, `RegSpec`, `nwords`,
   `Simple`, `simpleCsrs`, `regBase`, `addrOf`, `wordPos`, `lastWord`.
 -/
 namespace Litex.Csr
@@ -16,7 +16,7 @@ inductive Kind
   | raw       -- CSR
 deriving Repr, DecidableEq, Inhabited
 
-inductive Ordering
+inductive WordOrdering
   | big | little
 deriving Repr, DecidableEq, Inhabited
 
@@ -49,18 +49,18 @@ def nwords (bw size : Nat) : Nat := (size + bw - 1) / bw
 
 /-- Order in which `do_finalize` creates the simple CSRs of an `n`-word register:
     `reversed(range(n))` for "big", `range(n)` for "little". -/
-def wordOrder : Ordering → Nat → List Nat
+def wordOrder : WordOrdering → Nat → List Nat
   | .big, n => (List.range n).reverse
   | .little, n => List.range n
 
 /-- The word whose simple CSR is created last; `do_finalize` derives the register-level `re`/`we` strobes
     from that one (`self.sync += self.re.eq(sc.re)` after the loop).  It always sits at the highest address. -/
-def lastWord : Ordering → Nat → Nat
+def lastWord : WordOrdering → Nat → Nat
   | .big, _ => 0
   | .little, n => n - 1
 
 /-- Position of word `i` among the `n` simple CSRs of its register. -/
-def wordPos : Ordering → Nat → Nat → Nat
+def wordPos : WordOrdering → Nat → Nat → Nat
   | .big, n, i => n - 1 - i
   | .little, _, i => i
 
@@ -83,24 +83,24 @@ def regWords (bw : Nat) (r : RegSpec) : Nat :=
 def wordBits (bw size i : Nat) : Nat := min (size - i * bw) bw
 
 /-- Word `i` of register number `k` as a simple CSR (`nbits = min(size - i*busword, busword)`). -/
-def mkSimple (bw : Nat) (ord : Ordering) (k : Nat) (r : RegSpec) (i : Nat) : Simple :=
+def mkSimple (bw : Nat) (ord : WordOrdering) (k : Nat) (r : RegSpec) (i : Nat) : Simple :=
   match r.kind with
   | .raw => { reg := k, word := 0, lo := 0, nbits := r.size, last := true }
   | _ => { reg := k, word := i, lo := i * bw, nbits := wordBits bw r.size i,
            last := i == lastWord ord (nwords bw r.size) }
 
-def regSimples (bw : Nat) (ord : Ordering) (k : Nat) (r : RegSpec) : List Simple :=
+def regSimples (bw : Nat) (ord : WordOrdering) (k : Nat) (r : RegSpec) : List Simple :=
   match r.kind with
   | .raw => [mkSimple bw ord k r 0]
   | _ => (wordOrder ord (nwords bw r.size)).map (mkSimple bw ord k r)
 
 /-- `GenericBank.simple_csrs` for a description whose first register has number `k`. -/
-def simplesFrom (bw : Nat) (ord : Ordering) : Nat → List RegSpec → List Simple
+def simplesFrom (bw : Nat) (ord : WordOrdering) : Nat → List RegSpec → List Simple
   | _, [] => []
   | k, r :: rs => regSimples bw ord k r ++ simplesFrom bw ord (k + 1) rs
 
 /-- `GenericBank.simple_csrs`: the bank's word `a` is `(simpleCsrs bw ord regs)[a]`. -/
-def simpleCsrs (bw : Nat) (ord : Ordering) (regs : List RegSpec) : List Simple :=
+def simpleCsrs (bw : Nat) (ord : WordOrdering) (regs : List RegSpec) : List Simple :=
   simplesFrom bw ord 0 regs
 
 /-- Word index (within the bank) of the first simple CSR of register `k`. -/
@@ -110,13 +110,13 @@ def regBase (bw : Nat) : List RegSpec → Nat → Nat
   | r :: rs, k + 1 => regWords bw r + regBase bw rs k
 
 /-- Position of word `i` among the simple CSRs of register `r`. -/
-def posIn (bw : Nat) (ord : Ordering) (r : RegSpec) (i : Nat) : Nat :=
+def posIn (bw : Nat) (ord : WordOrdering) (r : RegSpec) (i : Nat) : Nat :=
   match r.kind with
   | .raw => 0
   | _ => wordPos ord (nwords bw r.size) i
 
 /-- Word index (within the bank) of word `i` of register `k`. -/
-def addrOf (bw : Nat) (ord : Ordering) (regs : List RegSpec) (k i : Nat) : Nat :=
+def addrOf (bw : Nat) (ord : WordOrdering) (regs : List RegSpec) (k i : Nat) : Nat :=
   regBase bw regs k + posIn bw ord (regs.getD k default) i
 
 /-! ### Fields (CSRField / CSRFieldAggregate) -/
